@@ -21,7 +21,9 @@ CLAIM = dict(
          "both systems survive.  The pre-repair behaviour (shifts left at system0's, finding F14) is kept as a "
          "labelled model.  Model and code are compared exactly on the real union order; the oracle checks energies "
          "and Berry curvature at the endpoints against the original systems, affinity for alpha inside and outside "
-         "[0,1], and the SOC interpolator's sub-systems.",
+         "[0,1], alphas within 1e-3 ... 1e-12 of the end points, accumulated alphas and finite differences with tiny steps "
+         "(X(alpha) - X(1) = (alpha-1)(X1-X0) exactly in the model: no flat neighbourhood of an end point; the "
+         "snap-to-endpoint rule is refuted by a counterexample), and the SOC interpolator's sub-systems.",
     note="Trusted: Lean kernel + Mathlib; the harness; numpy arithmetic; evaluate_k as the observation channel.",
 )
 TRUSTED = [
@@ -32,7 +34,7 @@ TRUSTED = [
 ]
 RULE = ("pairs of random Hermitian System_R on the same lattice: num_wann 1-4, 1-9 R-vectors each with equal, "
         "overlapping and disjoint (except 0) R sets, matrix sets {Ham}, {Ham,AA}, {Ham,AA,SS}, {Ham,SS} in all "
-        "combinations, different centres; alpha in {0,1}, inside and outside [0,1]; use_pointgroup 0/1/-1; "
+        "combinations, different centres; alpha in {0,1}, inside and outside [0,1], end point +- {1e-3,1e-5,8e-6,1e-7,1e-9,1e-12}, sum([0.1]*10), finite differences with h down to 1e-7; use_pointgroup 0/1/-1; "
         "non-trivial = R sets differ or matrix sets differ; distinct = distinct (sizes, R sets, keys, seed)")
 
 
@@ -153,6 +155,67 @@ def strip(s, keys):
     return t
 
 
+
+EPS = 2.3e-16
+
+
+def fields(s, soc=False):
+    """everything of an interpolated system that must be affine in alpha"""
+    out = {f"matrix {k}": np.asarray(v) for k, v in s._XX_R.items()}
+    out["Wannier centres"] = np.asarray(s.wannier_centers_cart)
+    out["R-vector shifts"] = np.asarray(s.rvec.shifts_left_red)
+    out["R + t_j - t_i"] = np.asarray(s.rvec.cRvec_shifted)
+    if soc:
+        for tag, sub in (("up", s.system_up), ("down", s.system_down)):
+            for k, v in fields(sub).items():
+                out[f"{tag}: {k}"] = v
+    return out
+
+
+def near_endpoints(ctx, ip, case, soc=False, quick=True):
+    """alpha arbitrarily close to (but different from) an end point, accumulated alphas, and finite differences with
+    tiny steps: X(alpha) = X(0) + alpha (X(1) - X(0)) to rounding, for matrices, centres and shifts"""
+    rng = ctx.rng
+    with quiet(), warnings.catch_warnings():
+        warnings.simplefilter("ignore")
+        F0, F1 = fields(ip.interpolate(0), soc), fields(ip.interpolate(1), soc)
+    offs = [1e-3, 1e-5, 8e-6, 1e-7, 1e-9, 1e-12]
+    alphas = [e + sg * d for e in (0.0, 1.0) for d in offs for sg in (1, -1)]
+    alphas += [sum([0.1] * 10), sum([0.1] * 3), 1 - sum([0.1] * 10) + 0.0, 0.5 + 1e-9]
+    if quick:
+        alphas = [1 - 8e-6, 1 + 8e-6, 1e-5, sum([0.1] * 10)] + rng.sample(alphas, 2)
+    for a in alphas:
+        with quiet(), warnings.catch_warnings():
+            warnings.simplefilter("ignore")
+            Fa = fields(ip.interpolate(a), soc)
+        for name in F0:
+            sc = np.abs(F0[name]).max() + np.abs(F1[name]).max() + 1e-300
+            want = F0[name] + a * (F1[name] - F0[name])
+            d = np.abs(Fa[name] - want).max() if Fa[name].size else 0.0
+            if d > 8 * EPS * sc * (1 + abs(a)):
+                ctx.fail(f"{name} at alpha = {a!r} is not X(0) + alpha (X(1) - X(0)): deviation {d:.2e} "
+                         f"(|X1 - X0| = {np.abs(F1[name] - F0[name]).max():.2e}) - not affine near the end point",
+                         dict(case, alpha=a))
+                return
+    # finite differences with tiny steps around 0, 1/2 and 1
+    for a in ((rng.choice([0.0, 0.5]), 1.0) if quick else (0.0, 0.5, 1.0)):
+        for h in ([rng.choice([1e-5, 8e-6, 1e-7])] if quick else [1e-3, 1e-5, 8e-6, 1e-7]):
+            with quiet(), warnings.catch_warnings():
+                warnings.simplefilter("ignore")
+                Fm, Fc, Fp = (fields(ip.interpolate(x), soc) for x in (a - h, a, a + h))
+            for name in F0:
+                if not Fc[name].size:
+                    continue
+                sc = np.abs(F0[name]).max() + np.abs(F1[name]).max() + 1e-300
+                d2 = np.abs(Fp[name] - 2 * Fc[name] + Fm[name]).max()
+                d1 = np.abs((Fp[name] - Fc[name]) / h - (F1[name] - F0[name])).max()
+                if d2 > 16 * EPS * sc or d1 > 16 * EPS * sc / h:
+                    ctx.fail(f"{name}: finite differences in alpha with step {h:g} around alpha = {a}: second difference "
+                             f"{d2:.2e} (bound {16 * EPS * sc:.1e}), slope error {d1:.2e} (bound {16 * EPS * sc / h:.1e})",
+                             dict(case, alpha=a, h=h))
+                    return
+    ctx.count("oracle.near_endpoints" + (".soc" if soc else ""))
+
 def oracle(ctx, scale):
     with quiet():
         from wannierberri.system.interpolate import SystemInterpolator, SystemInterpolatorSOC
@@ -218,6 +281,8 @@ def oracle(ctx, scale):
                 ctx.fail("the R-vector shifts of the interpolated system are not its Wannier centres", acase)
             if not np.array_equal(sg.rvec.iRvec, ip.system0.rvec.iRvec):
                 ctx.fail("the interpolated system does not live on the union R-vector list", acase)
+            if it % 3 == 0 or ctx.tier != "quick":
+                near_endpoints(ctx, ip, case, quick=(ctx.tier == "quick"))
 
     # ---------------- SOC interpolator (matrix level; SystemSOC objects assembled by hand)
     for it in range(ctx.n(3, 12) * scale):
@@ -282,6 +347,8 @@ def oracle(ctx, scale):
                 d = np.abs(ea._XX_R[key] - ((1 - a) * e0._XX_R[key] + a * e1._XX_R[key])).max()
                 if d > 2e-14 * (1 + abs(a)):
                     ctx.fail(f"SOC matrix {key} is not affine in alpha", dict(case, alpha=a))
+            if it % 2 == 0:
+                near_endpoints(ctx, ip, case, soc=True, quick=(ctx.tier == "quick"))
 
 
 def replay(ctx, case):
